@@ -33,6 +33,9 @@ def run(chk):
     batcher.termination(chk, P, "C06")
     batcher.capacity_hint(chk, P, "C06")
     batcher.metrics_accounting(chk, P, "C06")
+    # the only loss the property allows is the counted truncation in send: the entry points themselves are part of it
+    batcher.send_rules(chk, P, "C06.send")
+    batcher.lossless_variants(chk, P, "C06.send")
     common.arg_agreement_rule(chk, P, "C06", [("emit_batcher", None)], 3)
     from . import witness
     witness.witness_rule(chk, "C06", 5)
